@@ -751,6 +751,9 @@ def run(ctx: Ctx) -> None:
     r07_13(ctx)
     r07_12(ctx)
     shared.layout_agreement(ctx, "R07.11")
+    shared.field_order_agreement(ctx, "R07.18")
+    from . import c10 as _c10
+    _c10.r10_15(ctx, rule="R07.19")  # the EmptyFile vector: one bit per member with an empty stream
     r07_10(ctx)
     from . import c15
     c15.r15_1(ctx, rule="R07.9")  # a member registered in the header lists without a stream makes file and substream counts disagree
